@@ -16,26 +16,55 @@ Definition mu (c : cfg) (s : state) : nat :=
     | PFlushWait b => bw b + 4 | PFlushed => 4 | PFlushJoined => 3 | PInner => 2 | PReturned => 0
     end.
 
-(* labels of the exporter's own threads and of the backend answering a call; excluded: the producers'
-   offers / sends and the back-off timer (a retry re-arms the work: while the retry sender is not stopped a
-   failing backend may be retried for ever; after stop the timer branch can win only in the
-   zero-interval race S4) *)
+(* labels of the exporter's own threads and of the backend answering a call; excluded: the producers' offers /
+   sends (the environment).  The back-off timer branch IS included: once stopCh is closed it re-checks the
+   channel and ends the work with the shutdown error instead of re-arming it. *)
 Definition ranked (l : label) : bool :=
-  match l with LOffer _ | LOfferFail _ | LSend _ | LRetryTimer _ => false | _ => true end.
+  match l with LOffer _ | LOfferFail _ | LSend _ => false | _ => true end.
 
-Lemma ranked_decreases c s l s' : step c s l = Some s' -> ranked l = true ->
+Definition ge_stopclosed (p : pc_t) : bool := match p with PNot | PCalled => false | _ => true end.
+
+(* after close(stopCh): the retry sender is stopped if it exists, and without one no work is ever in a back-off *)
+Definition stopped_inv (c : cfg) (s : state) : Prop :=
+  ge_stopclosed (pc s) = true /\ rstop s = c_retry c /\ (c_retry c = false -> sumf wback (works s) = 0).
+
+Lemma step_noretry c s l s' : step c s l = Some s' ->
+  (c_retry c = false -> sumf wback (works s) = 0) -> c_retry c = false -> sumf wback (works s') = 0.
+Proof. intros H A R. specialize (A R). start H l; rw_eqs; arith. Qed.
+
+Lemma run_noretry c : forall ls s s', run c s ls = Some s' ->
+  (c_retry c = false -> sumf wback (works s) = 0) -> c_retry c = false -> sumf wback (works s') = 0.
+Proof.
+  induction ls as [|l ls IH]; intros s s' H A R; simpl in H.
+  - injection H as <-. auto.
+  - destruct (step c s l) as [s1|] eqn:E; [|discriminate]. eapply IH; [eassumption| |assumption].
+    intros _. eapply step_noretry; eassumption.
+Qed.
+
+Lemma step_stopped c s l s' : stopped_inv c s -> step c s l = Some s' -> stopped_inv c s'.
+Proof.
+  intros (G & Rs & Nb) H. split; [|split].
+  - start H l; rw_eqs; cbn [ge_stopclosed] in *; try discriminate; try reflexivity; assumption.
+  - start H l; rw_eqs; cbn [ge_stopclosed] in *; try discriminate; try reflexivity; assumption.
+  - intros R. eapply step_noretry; eassumption.
+Qed.
+
+Lemma ranked_decreases c s l s' : stopped_inv c s -> step c s l = Some s' -> ranked l = true ->
   mu c s' < mu c s \/ (l = LTimerFire /\ s' = s).
 Proof.
-  intros H R. destruct l; try discriminate R; clear R.
+  intros (G & Rs & Nb) H R. destruct l; try discriminate R; clear R.
   all: try (match goal with o : outcome |- _ => destruct o end); unfold step, is_ok, end_state in H; destr_step H;
-       injection H as <-; proj.
+       guards; injection H as <-; proj.
   all: try (right; split; reflexivity).
   all: left; unfold mu, bw, wrank, wst, set_st in *; proj; rw_eqs; cbn [nonempty] in *; try discriminate;
        repeat match goal with Hl : (_ <? _) = false |- _ => apply Nat.ltb_ge in Hl end;
        rewrite ?length_upd_nth in *; splits;
        do 3 (rewrite ?sumf_app, ?app_length, ?sumf_repeat, ?repeat_length in *; cbn [sumf length w_st] in * ); rw_eqs;
        cbn [sumf length w_st] in *; try nia.
-  all: destruct (current s); cbn [nonempty length] in *; [discriminate|nia].
+  all: try (destruct (current s); cbn [nonempty length] in *; [discriminate|nia]).
+  (* LRetryTimer with the retry sender not stopped: impossible after close(stopCh) *)
+  all: destruct (c_retry c); [discriminate|]; specialize (Nb eq_refl); unfold wback, backoff in Nb;
+       splits; rw_eqs; cbn [sumf] in Nb; lia.
 Qed.
 
 Definition wfc (c : cfg) : Prop := (c_batch c = true -> 1 <= c_nwork c) /\ 1 <= c_maxparts c.
@@ -56,8 +85,8 @@ Proof.
 Qed.
 
 
-Lemma strict c s l s' : step c s l = Some s' -> ranked l = true -> l <> LTimerFire -> mu c s' < mu c s.
-Proof. intros H R N. destruct (ranked_decreases _ _ _ _ H R) as [?|[? _]]; [assumption|contradiction]. Qed.
+Lemma strict c s l s' : stopped_inv c s -> step c s l = Some s' -> ranked l = true -> l <> LTimerFire -> mu c s' < mu c s.
+Proof. intros SI H R N. destruct (ranked_decreases _ _ _ _ SI H R) as [?|[? _]]; [assumption|contradiction]. Qed.
 
 Ltac fire l := exists l; eexists; split; [unfold step; rw_eqs; cbn; reflexivity | split; [reflexivity | discriminate]].
 
@@ -104,7 +133,7 @@ Proof.
            destruct b as [|b0 rest]; [discriminate|].
            destruct rest; exists (LSpawnC 0); eexists; unfold step; rewrite Ef, Em; cbn [nth_error];
              (split; [reflexivity|split; [reflexivity|discriminate]]).
-      * exists (LAbsorb 0 1 true). eexists. unfold step. rewrite Eh. cbn [nth_error].
+      * exists (LAbsorb 0 1 true true). eexists. unfold step. rewrite Eh. cbn [nth_error].
         replace (Nat.ltb (c_maxparts c) 1) with false by (symmetry; apply Nat.ltb_ge; lia).
         split; [reflexivity|split; [reflexivity|discriminate]].
     + destruct (c_persist c) eqn:Pe.
@@ -134,19 +163,21 @@ Qed.
 
 (* from every reachable state in which Shutdown has been called, Return is reachable using only
    ranked labels (no further offer, no back-off timer), in at most [mu c s] steps *)
-Lemma reach_return c : wfc c -> forall n s, mu c s <= n -> Inv c s -> cfne s -> is_not (pc s) = false ->
+Lemma stopped_not_PNot c s : stopped_inv c s -> is_not (pc s) = false.
+Proof. intros (G & _). destruct (pc s); try reflexivity; discriminate. Qed.
+
+Lemma reach_return c : wfc c -> forall n s, mu c s <= n -> Inv c s -> cfne s -> stopped_inv c s ->
   exists ls s', run c s ls = Some s' /\ pc s' = PReturned /\ forallb ranked ls = true /\ length ls <= mu c s.
 Proof.
-  intros WF. induction n as [|n IH]; intros s M I CF N.
-  - destruct (pc s) eqn:P; try discriminate N.
+  intros WF. induction n as [|n IH]; intros s M I CF SI.
+  - pose proof (stopped_not_PNot _ _ SI) as N. destruct (pc s) eqn:P; try discriminate N.
     all: try (exfalso; unfold mu in M; rewrite P in M; lia).
     exists [], s; split; [reflexivity|split; [assumption|split; [reflexivity|simpl; lia]]].
-  - destruct (pc s) eqn:P; try discriminate N.
+  - pose proof (stopped_not_PNot _ _ SI) as N. destruct (pc s) eqn:P; try discriminate N.
     all: try (exists [], s; split; [reflexivity|split; [assumption|split; [reflexivity|simpl; lia]]]).
     all: destruct (progress c s I CF WF) as (l & s1 & St & R & NT); [rewrite P; reflexivity | rewrite P; discriminate|];
-         pose proof (strict _ _ _ _ St R NT) as D;
-         assert (N1 : is_not (pc s1) = false) by (eapply step_pc_called; [eassumption|rewrite P; reflexivity]);
-         destruct (IH s1 ltac:(lia) (step_inv _ _ _ _ I St) (step_cfne _ _ _ _ CF St) N1) as (ls & s2 & Rn & Pr & Rk & Ln);
+         pose proof (strict _ _ _ _ SI St R NT) as D;
+         destruct (IH s1 ltac:(lia) (step_inv _ _ _ _ I St) (step_cfne _ _ _ _ CF St) (step_stopped _ _ _ _ SI St)) as (ls & s2 & Rn & Pr & Rk & Ln);
          exists (l :: ls), s2; (split; [simpl; rewrite St; assumption|]); (split; [assumption|]);
          (split; [simpl; rewrite R, Rk; reflexivity | simpl; lia]).
 Qed.
@@ -159,36 +190,21 @@ Proof.
 Qed.
 
 (* no run of ranked labels is longer than mu (apart from no-op timer ticks) *)
-Lemma ranked_runs_bounded c : forall ls s s', run c s ls = Some s' -> forallb ranked ls = true ->
+Lemma ranked_runs_bounded c : forall ls s s', stopped_inv c s -> run c s ls = Some s' -> forallb ranked ls = true ->
   mu c s' + length (filter (fun l => match l with LTimerFire => false | _ => true end) ls) <= mu c s.
 Proof.
-  induction ls as [|l ls IH]; intros s s' H R; simpl in *.
+  induction ls as [|l ls IH]; intros s s' SI H R; simpl in *.
   - injection H as <-. lia.
   - destruct (step c s l) as [s1|] eqn:St; [|discriminate]. apply andb_prop in R as [R1 R2].
-    specialize (IH _ _ H R2). destruct (ranked_decreases _ _ _ _ St R1) as [D|[E1 E2]].
+    specialize (IH _ _ (step_stopped _ _ _ _ SI St) H R2). destruct (ranked_decreases _ _ _ _ SI St R1) as [D|[E1 E2]].
     + destruct l; simpl; lia.
     + subst. simpl. lia.
 Qed.
 
-(* ---- shutdown_terminates_refuted ----------------------------------------------------------------
+(* (removed) ----------------------------------------------------------------
    After close(stopCh) the back-off select may still take the timer branch (both channels ready): from
    the state below the cycle [retry timer; export begins; export fails transiently] returns to the same
    control state (only the ghost logs grow), so it can be repeated for ever and Shutdown never returns. *)
-Definition ctl (s : state) :=
-  (queue s, qstop s, idle s, exited s, holding s, cflush s, current s, workers s, works s, timer s,
-   bclosed s, rstop s, pc s).
-
-Lemma refuted_l : exists c ls s cyc s',
-  run c (init c) ls = Some s /\ rstop s = true /\ is_not (pc s) = false /\ pc s <> PReturned /\
-  cyc <> [] /\ run c s cyc = Some s' /\ ctl s' = ctl s /\ mu c s' = mu c s /\ length (begun s') = S (length (begun s)).
-Proof.
-  exists (mkCfg true false false false true 1 0 1),
-         [LOffer 1; LTake; LBegin 0; LEnd 0 OTransient; LShutCall; LCloseStop; LQueueStop false].
-  eexists. exists [LRetryTimer 0; LBegin 0; LEnd 0 OTransient]. eexists.
-  split; [vm_compute; reflexivity|]. split; [reflexivity|]. split; [reflexivity|]. split; [discriminate|].
-  split; [discriminate|]. split; [vm_compute; reflexivity|]. repeat split.
-Qed.
-
 (* ---- split requests: the accumulated verdict of the parts ------------------------------------------ *)
 Lemma combine_shutdown rs : In RShutdown rs <-> combine rs = RShutdown.
 Proof.
@@ -248,8 +264,6 @@ Lemma close_stop_l c s s' : step c s LCloseStop = Some s' -> rstop s' = c_retry 
 Proof. unfold step. destruct (pc s); try discriminate. intros H. injection H as <-. reflexivity. Qed.
 
 (* ---- exporter without queue and batcher ------------------------------------------------------------ *)
-Definition ge_stopclosed (p : pc_t) : bool := match p with PNot | PCalled => false | _ => true end.
-
 Lemma step_rstop c s l s' : step c s l = Some s' ->
   (ge_stopclosed (pc s) = true -> rstop s = c_retry c) -> ge_stopclosed (pc s') = true -> rstop s' = c_retry c.
 Proof.
@@ -293,20 +307,28 @@ Proof.
   unfold live. rewrite A2, A4, A5, A6. simpl. lia.
 Qed.
 
+Lemma reachable_stopped c ls s : run c (init c) ls = Some s -> ge_stopclosed (pc s) = true -> stopped_inv c s.
+Proof.
+  intros R G. split; [assumption|]. split.
+  - eapply (run_rstop c ls (init c) s R); [discriminate|assumption].
+  - intros Nr. eapply (run_noretry c ls (init c) s R); [reflexivity|assumption].
+Qed.
+
 Lemma terminates_l c ls s :
-  wfc c -> run c (init c) ls = Some s -> is_not (pc s) = false ->
+  wfc c -> run c (init c) ls = Some s -> ge_stopclosed (pc s) = true ->
   (exists ls' s', run c s ls' = Some s' /\ pc s' = PReturned /\ forallb ranked ls' = true /\ length ls' <= mu c s)
   /\ (pc s <> PReturned -> exists l s', step c s l = Some s' /\ ranked l = true /\ mu c s' < mu c s)
   /\ (forall ls' s', run c s ls' = Some s' -> forallb ranked ls' = true ->
         mu c s' + length (filter (fun l => match l with LTimerFire => false | _ => true end) ls') <= mu c s).
 Proof.
-  intros WF R N.
+  intros WF R G.
   assert (I : Inv c s) by (eapply run_inv; [apply init_inv|eassumption]).
   assert (CF : cfne s) by (eapply run_cfne; [|eassumption]; reflexivity).
+  pose proof (reachable_stopped _ _ _ R G) as SI.
   split; [eapply reach_return; eauto|]. split.
-  - intros NR. destruct (progress c s I CF WF N NR) as (l & s' & St & Rk & NT).
+  - intros NR. destruct (progress c s I CF WF (stopped_not_PNot _ _ SI) NR) as (l & s' & St & Rk & NT).
     exists l, s'. split; [assumption|]. split; [assumption|]. eapply strict; eassumption.
-  - intros ls' s'. apply ranked_runs_bounded.
+  - intros ls' s'. apply ranked_runs_bounded. assumption.
 Qed.
 
 (* ---- exporter without queue: no NEW attempt after the return ------------------------------------------ *)
@@ -314,10 +336,10 @@ Definition wready (w : work) : nat := match w_st w with SReady => 1 | _ => 0 end
 Definition ready (s : state) : nat := sumf wready (works s).
 Definition is_begin (l : label) : nat := match l with LBegin _ => 1 | _ => 0 end.
 
-Lemma step_ready c s l s' : Inv c s -> c_queue c = false -> step c s l = Some s' -> ranked l = true ->
+Lemma step_ready c s l s' : Inv c s -> stopped_inv c s -> c_queue c = false -> step c s l = Some s' -> ranked l = true ->
   ready s' + is_begin l <= ready s.
 Proof.
-  intros I Q H R. destruct (i_noqueue _ _ I Q) as (A1 & A2 & A3 & A4 & A5 & A6 & _ & _ & _ & A10). clear I.
+  intros I (G & Rs & Nb) Q H R. destruct (i_noqueue _ _ I Q) as (A1 & A2 & A3 & A4 & A5 & A6 & _ & _ & _ & A10). clear I.
   destruct l; try discriminate R; clear R;
     try (match goal with o : outcome |- _ => destruct o end); unfold step, is_ok, end_state in H;
     rewrite ?A1, ?A2, ?A3, ?A4, ?A5, ?A6, ?Q in H; cbn [negb andb orb nth_error] in H;
@@ -325,16 +347,18 @@ Proof.
   all: destr_step H; injection H as <-; proj; unfold ready, wready, is_begin, set_st in *; proj; try lia;
        splits; rw_eqs; cbn [sumf w_st] in *; try lia.
   all: ifs; try lia.
-  all: rewrite Heqp in A10; contradiction.
+  all: try (match goal with Hp : pc _ = PFlushWait _ |- _ => rewrite Hp in A10; contradiction end).
+  all: exfalso; specialize (Nb (eq_sym Rs)); unfold wback, backoff in Nb; rewrite Heqs0 in Nb; lia.
 Qed.
 
-Lemma run_ready c : forall ls s s', Inv c s -> c_queue c = false -> run c s ls = Some s' -> forallb ranked ls = true ->
+Lemma run_ready c : forall ls s s', Inv c s -> stopped_inv c s -> c_queue c = false -> run c s ls = Some s' -> forallb ranked ls = true ->
   ready s' + sumf is_begin ls <= ready s.
 Proof.
-  induction ls as [|l ls IH]; intros s s' I Q H R; simpl in *.
+  induction ls as [|l ls IH]; intros s s' I SI Q H R; simpl in *.
   - injection H as <-. lia.
   - destruct (step c s l) as [s1|] eqn:St; [|discriminate]. apply andb_prop in R as [R1 R2].
-    pose proof (step_ready _ _ _ _ I Q St R1). specialize (IH _ _ (step_inv _ _ _ _ I St) Q H R2). lia.
+    pose proof (step_ready _ _ _ _ I SI Q St R1).
+    specialize (IH _ _ (step_inv _ _ _ _ I St) (step_stopped _ _ _ _ SI St) Q H R2). lia.
 Qed.
 
 (* the clause "all export calls have returned" does NOT hold for an exporter without queue: Shutdown has
@@ -357,4 +381,80 @@ Proof.
          [LOffer 1; LShutCall; LCloseStop; LQueueStop false; LJoinConsumers; LFinalFlush; LJoinFlushes; LInnerShutdown; LReturn].
   eexists. split; [reflexivity|]. split; [reflexivity|]. split; [reflexivity|]. split; [vm_compute; reflexivity|].
   repeat split. left. reflexivity.
+Qed.
+
+(* ---- the thread structure and the WaitGroups Shutdown waits on ------------------------------------------ *)
+Lemma filter_cons_sum (l : list work) :
+  length (filter (fun w => match w_own w with OCons => true | _ => false end) l) = sumf wcons l.
+Proof. induction l as [|w l IH]; simpl; auto. unfold wcons at 1. destruct (w_own w); simpl; lia. Qed.
+
+Lemma filter_fly_sum (l : list work) : length (filter is_fly l) = sumf wfly l.
+Proof.
+  induction l as [|w l IH]; cbn [filter sumf length]; auto. unfold wfly at 1. destruct (is_fly w) eqn:E; unfold is_fly in E;
+    destruct (w_own w); try discriminate; cbn [length]; lia.
+Qed.
+
+Lemma nofly_iff (l : list work) : forallb (fun w => negb (is_fly w)) l = true <-> sumf wfly l = 0.
+Proof.
+  split; [apply nofly_sum|]. induction l as [|w l IH]; simpl; auto. unfold wfly at 1, is_fly.
+  destruct (w_own w); simpl; intros H; try lia; apply IH; lia.
+Qed.
+
+(* asyncQueue.stopWG: its counter is the number of consumer goroutines alive *)
+Lemma census_consumers_l c s : Inv c s -> n_cons_alive s + exited s = ncons_eff c.
+Proof. intros I. pose proof (i_consumers _ _ I). unfold n_cons_alive. rewrite filter_cons_sum. lia. Qed.
+
+(* ... and Shutdown's first join is enabled exactly when no consumer is alive *)
+Lemma join_consumers_iff_l c s : Inv c s -> pc s = PQStopped ->
+  ((exists s', step c s LJoinConsumers = Some s') <-> n_cons_alive s = 0).
+Proof.
+  intros I P. pose proof (census_consumers_l _ _ I) as C. unfold step. rewrite P.
+  destruct (Nat.eqb (exited s) (ncons_eff c)) eqn:E; [apply Nat.eqb_eq in E|apply Nat.eqb_neq in E].
+  - split; [lia|]. intros _. eexists. reflexivity.
+  - split; [intros [s' X]; discriminate X|lia].
+Qed.
+
+(* defaultBatcher.stopWG covers the flush goroutines and the timer goroutine (and every flush() call that is still
+   waiting for a worker: those callers are consumers — already joined — or the timer goroutine itself): the
+   second join is enabled exactly when no flush goroutine and no timer goroutine is alive *)
+Lemma join_flushes_iff_l c s : Inv c s -> pc s = PFlushed ->
+  ((exists s', step c s LJoinFlushes = Some s') <-> n_fly s = 0 /\ n_timer s = 0).
+Proof.
+  intros I P. assert (J : ge_joined (pc s) = true) by (rewrite P; reflexivity).
+  destruct (joined_quiet _ _ I J) as (_ & _ & Hf & _).
+  unfold step, n_fly, n_timer. rewrite P, Hf, filter_fly_sum. cbn [nonempty negb andb].
+  destruct (forallb (fun w => negb (is_fly w)) (works s)) eqn:F.
+  - apply nofly_iff in F. destruct (timer_dead (timer s)); cbn [andb].
+    + split; [intros _; split; [assumption|reflexivity]|]. intros _. eexists. reflexivity.
+    + split; [intros [s' X]; discriminate X|]. intros [_ X]. discriminate X.
+  - cbn [andb]. split; [intros [s' X]; discriminate X|]. intros [X _]. apply nofly_iff in X. congruence.
+Qed.
+
+(* when Shutdown of an exporter with a queue has returned the census is empty *)
+Lemma census_at_return_l c ls s : c_queue c = true -> run c (init c) ls = Some s -> pc s = PReturned ->
+  census s = [0; 0; 0; 0].
+Proof.
+  intros Q R P. assert (I : Inv c s) by (eapply run_inv; [apply init_inv|eassumption]).
+  destruct (returned_quiet _ _ I Q P) as (H1 & H2 & H3 & _ & H5 & H6 & _).
+  unfold census, n_cons_alive, n_fly, n_timer. rewrite H1, H2, H3, H5, H6. reflexivity.
+Qed.
+
+Lemma retry_timer_stop_l c s k w s' :
+  nth_error (works s) k = Some w -> w_st w = SBackoff -> rstop s = true -> step c s (LRetryTimer k) = Some s' ->
+  begun s' = begun s /\ nth_error (works s') k = Some (set_st (SDone RShutdown) w).
+Proof.
+  intros N B R H. unfold step in H. rewrite N, B, R in H. injection H as <-. split; [reflexivity|].
+  cbn [works set_works]. clear B R. revert k N. induction (works s) as [|a l IH]; intros [|k] N; simpl in *; try discriminate.
+  - injection N as ->. reflexivity.
+  - apply IH. assumption.
+Qed.
+
+Lemma no_new_attempt_l c ls1 s1 ls2 s2 :
+  c_queue c = false -> run c (init c) ls1 = Some s1 -> pc s1 = PReturned ->
+  run c s1 ls2 = Some s2 -> forallb ranked ls2 = true ->
+  ready s2 + sumf is_begin ls2 <= ready s1.
+Proof.
+  intros Q R1 P R2 Rk. eapply run_ready; try eassumption.
+  - eapply run_inv; [apply init_inv|eassumption].
+  - eapply reachable_stopped; [eassumption|]. rewrite P. reflexivity.
 Qed.
